@@ -92,7 +92,7 @@ def judge_text(run, spec, stage, L, text, inv, lit, lit_nodef, found):
     run.cov["declarations_compared"] += len(exp)
     if d is not None:
         bad = True
-        tag = (d.get("expected") or d.get("scanned") or ["?"])[0]
+        tag = (d.get("scanned") or d.get("expected") or ["?"])[0]
         sig = "declarations-differ:%s:%s" % (L, tag)
         if sig not in found:
             found.add(sig)
